@@ -37,6 +37,7 @@ Record call := {
   c_mapped : option mapkind;             (* map call over arrays / typed maps *)
   c_binds : list (bytes * (bool * exp)); (* param, (split?, expression) *)
   c_disabled : option exp;               (* a reference of type bool *)
+  c_preflight : bool;                    (* using (preflight = true) *)
 }.
 
 Record stage := {
@@ -66,6 +67,11 @@ Record oracle := {
   o_split : bytes -> json -> list json;                (* chunk definitions *)
   o_chunk : bytes -> json -> json;                     (* merged args -> chunk outs *)
   o_join : bytes -> json -> list json -> list json -> json;
+  (* The latitude of the property for disabled mapped calls: does the
+     disabled mapped call at this path appear as a collection of nulls (one
+     per element it would have ranged over) rather than as null.  Not a
+     stage behaviour, but resolved by the environment in the same way. *)
+  o_nulls : list bytes -> bool;
 }.
 
 (* A job the runtime must execute: call path from the top, phase, what the
@@ -153,6 +159,20 @@ Section WithStructs.
   Definition coerce_fields (fuel : nat) (fs : fields) (v : json) : json :=
     JObj (map (fun ft => (fst ft, coerce fuel (snd ft) (obj_get (fst ft) v))) fs).
 End WithStructs.
+
+(* The latitude the property grants: a disabled or empty mapped call may
+   appear as null, an empty collection or a collection of nulls.  Both sides
+   are normalised by collapsing collections that contain nothing but nulls. *)
+Fixpoint nullify (j : json) : json :=
+  match j with
+  | JArr l =>
+      let l' := map nullify l in
+      if forallb is_null l' then JNull else JArr l'
+  | JObj kvs =>
+      let kvs' := map (fun kv => (fst kv, nullify (snd kv))) kvs in
+      if forallb (fun kv => is_null (snd kv)) kvs' then JNull else JObj kvs'
+  | _ => j
+  end.
 
 (* ---------------------------------------------------------------- evaluation *)
 
@@ -288,9 +308,17 @@ Section Eval.
                     | Some e => match eval_exp E e with JBool true => true | _ => false end
                     | None => false
                     end in
-    if disabled then ((JNull, res_t), [])
+    let vals := map (fun b => (fst b, (fst (snd b), eval_exp E (snd (snd b))))) (c_binds c) in
+    if disabled then
+      match c_mapped c with
+      | Some k =>
+          if o_nulls Orc (path ++ [c_id c]) then
+            let elems := split_elems k (first_split vals) in
+            ((collect k elems (map (fun _ => JNull) elems), res_t), [])
+          else ((JNull, res_t), [])
+      | None => ((JNull, res_t), [])
+      end
     else
-      let vals := map (fun b => (fst b, (fst (snd b), eval_exp E (snd (snd b))))) (c_binds c) in
       match c_mapped c with
       | None =>
           let r := eval_callable f (c_callee c) (path ++ [c_id c])
